@@ -51,6 +51,25 @@ def run(res, replay=None):
                 kmax = min(len(order), 14)
                 for kk in range(1, kmax + 1):
                     cases.append((inp, ci, order[:kk], rng.below(1 << 30)))
+    if not replay:
+        # cells with many faces (> 64 planes): a generator surrounded by generators on a sphere
+        import math
+        for rep in range(2 if tier == "quick" else 8):
+            m = rng.range(100, 170)
+            ctr = [0.5, 0.5, 0.5]
+            dirs = []
+            for i in range(m):
+                z = 1.0 - 2.0 * (i + 0.5) / m
+                phi = i * 2.399963229728653
+                r = math.sqrt(max(0.0, 1 - z * z))
+                dirs.append((r * math.cos(phi), r * math.sin(phi), z))
+            rng.shuffle(dirs)
+            # nearly equal radii, increasing with the (spatially random) rank: every generator cuts the cell
+            gens = [ctr] + [[ctr[c] + 0.25 * (1.0 + 1e-6 * rank) * d[c] for c in range(3)] for rank, d in enumerate(dirs)]
+            inp = {"family": "manyfaces", "dim": 3, "periodic": False, "anchor": [0.0, 0.0, 0.0], "width": [1.0, 1.0, 1.0], "gens": gens, "mask": None}
+            order = list(range(1, len(gens)))
+            for kk in list(range(60, len(order) + 1, 1)):
+                cases.append((inp, 0, order[:kk], rng.below(1 << 30)))
     wd = os.path.join(C.CACHE, "run", "c18")
     os.makedirs(wd, exist_ok=True)
     cf = os.path.join(wd, "clip.cases")
